@@ -842,7 +842,15 @@ static void gen_expr(Node *node) {
       println("  and %%r9, %%rax");
       println("  or %%rdi, %%rax");
       store(node->ty);
+
+      // The value of the assignment is the value of the bit-field
+      // after the assignment, not the unconverted right-hand side.
       println("  mov %%r8, %%rax");
+      println("  shl $%d, %%rax", 64 - mem->bit_width);
+      if (mem->ty->is_unsigned || mem->ty->kind == TY_BOOL)
+        println("  shr $%d, %%rax", 64 - mem->bit_width);
+      else
+        println("  sar $%d, %%rax", 64 - mem->bit_width);
       return;
     }
 
